@@ -26,6 +26,8 @@ def truth(st: St, v: SV):
             k = z3.Const("k!t", S.sort_of(c.kty)); return z3.Exists([k], c.dom[k])
         if isinstance(c, SetCell):
             k = z3.Const("k!t", S.sort_of(c.elem)); return z3.Exists([k], c.mem[k])
+    if isinstance(v, SOpaqueObj):          # an unmodelled object in a boolean context: an unknown, but fixed, truth value
+        return S.obj_fn("truth", S.Obj, z3.BoolSort())(v.ident())
     raise Unsupported(f"truth value of {v}")
 
 
@@ -130,6 +132,14 @@ def contains(st: St, c: SV, x: SV):
 def equal(st: St, a: SV, b: SV):
     """a == b as z3 Bool (Python semantics for the modelled types; cross-type comparisons are False)."""
     if isinstance(a, SNone) and isinstance(b, SNone): return z3.BoolVal(True)
+    if isinstance(a, (SOpaqueObj, SOpaque)) or isinstance(b, (SOpaqueObj, SOpaque)):
+        # == involving an unmodelled object: its __eq__ is unknown
+        if isinstance(a, SOpaqueObj) and isinstance(b, SOpaqueObj):
+            return S.obj_fn("eq", S.Obj, S.Obj, z3.BoolSort())(a.ident(), b.ident())
+        if isinstance(a, SNone) or isinstance(b, SNone):
+            o = b if isinstance(a, SNone) else a
+            return S.obj_fn("is_none", S.Obj, z3.BoolSort())(o.ident()) if isinstance(o, SOpaqueObj) else S.fresh("eq", z3.BoolSort())
+        return S.fresh("eq", z3.BoolSort())
     if isinstance(a, SNone): a, b = b, a
     if isinstance(b, SNone):
         if isinstance(a, SPrim) and a.ty == "Id": return S.Id.is_NoneId(a.t)
